@@ -60,7 +60,8 @@ def build_batches(chk: Check, *, codemods=None, seeds_per_codemod: int = 2, vect
         for s in chosen:
             base_ok = pyoracle.compiles(s.input)
             for v in covering(chk, vectors, extra_vectors if s.test.startswith("extra::") else vectors_per_seed):
-                text = variations.apply(s.input, v)
+                added = [ln for ln in s.expected.split("\n") if seeds.is_import_line(ln) and ln.strip() and ln not in s.input.split("\n")]
+                text = variations.apply(s.input, v, added)
                 if base_ok and not pyoracle.compiles(text):
                     discarded += 1
                     continue
